@@ -1,20 +1,41 @@
 (* Property C10 — for_all yields exactly the bindings whose condition holds for every value.
    Only statements, `exact`, and Print Assumptions.
 
-   FULL STATEMENT (what the property demands), for a non-empty universal domain:
-     the rows of  eval (CForAll u c) b ywf  restricted to the free variables are exactly the assignments s of the free
-     variables with  forall v in dom u, isat c (s, u := v).
-   PROVED PART (C10_intersection_partial): the algorithm of ForAll._evaluate__ — one pass per universal value, running
-   intersection, early exit — keeps exactly the rows of the first pass that are matched in EVERY other pass, whatever the
-   number of universal values (induction over the domain).  MISSING for the full statement: that one pass returns exactly the
-   satisfying assignments of the free variables under that universal value (the partition invariant of C02 with the
-   universal variable pre-bound and the free variables completed); that half rests on the correspondence check. *)
-From EQL Require Import Base Values Syntax Spec EvalPure ForAll_Facts.
+   FULL STATEMENT, now proved (C10_forall): for a non-empty universal domain, the rows of  eval (CForAll u c) b ywf  are
+   exactly - each flagged true - the rows  merge b (canon e)  of the assignments e of the free variables (members of their
+   domains, agreeing with the incoming binding b) with  forall v in dom u, isat c (e, u := v),  i.e.  isat (CForAll u c) e.
+   The two halves: C10_one_pass (one pass returns exactly the satisfying assignments of the free variables under that
+   universal value: the partition invariant of C02 with the universal variable pre-bound and the free variables completed) and
+   C10_intersection (one pass per universal value, running intersection, early exit = matched in EVERY pass). *)
+From EQL Require Import Base Values Syntax Spec EvalPure EvalPure_Facts Query_Facts ForAll_Facts ForAll_Full.
 
-Theorem C10_intersection_partial : forall pass v0 vs s,
+(* c = the condition of for_all(u, c) - any tree of comparisons / memberships / expressions / and / or / not / sub-queries over
+   u and any number of free variables (free u c = the other variables of c); every domain duplicate-free, the free variables range
+   over objects; b = the binding for_all is entered with (empty at top level, the left row when and_-ed on the right) *)
+Theorem C10_forall : forall h dom u c b ywf r,
+  (forall x, In x (UF u c) -> NoDup (dom x)) -> basic (UF u c) c = true ->
+  (forall x v, In x (free u c) -> In v (dom x) -> exists o, v = VObj o) ->
+  dom u <> [] -> in_dom dom b -> lookup b u = None ->
+  (In r (eval h dom (CForAll u c) b ywf) <->
+   exists e, (forall x, In x (free u c) -> In (e x) (dom x)) /\
+             agreesb (UF u c) b (upd e u (hd (VA ANone) (dom u))) = true /\
+             r = (merge b (canon u c e), false) /\
+             isat h dom (CForAll u c) e = true).
+Proof. exact forall_rows_spec. Qed.
+Print Assumptions C10_forall.
+
+Theorem C10_one_pass : forall h dom u c,
+  (forall x, In x (UF u c) -> NoDup (dom x)) -> basic (UF u c) c = true -> forall b v s,
+  In v (dom u) -> in_dom dom b -> lookup b u = None ->
+  (In s (pass h dom u c b v) <->
+   exists e, valid dom (UF u c) e /\ e u = v /\ agreesb (UF u c) b e = true /\ s = canon u c e /\ isat h dom c e = true).
+Proof. exact pass_spec. Qed.
+Print Assumptions C10_one_pass.
+
+Theorem C10_intersection : forall pass v0 vs s,
   In s (inter pass (v0 :: vs)) <-> In s (pass v0) /\ forall v, In v vs -> existsb (binding_eqb s) (pass v) = true.
 Proof. exact inter_forall. Qed.
-Print Assumptions C10_intersection_partial.
+Print Assumptions C10_intersection.
 
 Theorem C10_rows_true : forall h dom u c b ywf r, In r (eval h dom (CForAll u c) b ywf) -> snd r = false.
 Proof. exact forall_rows. Qed.
